@@ -165,8 +165,12 @@ class StmtMixin:
         payload = None
         if isinstance(e, ast.Call):
             name = _exc_name(e.func)
-            args = [self.eval(a) for a in e.args]
-            payload = args
+            try:
+                payload = [self.eval(a) for a in e.args]
+            except Unsupported:
+                # the message of an exception has no effect on verified state
+                self.res.drops.add("exception message expressions that cannot be translated (formatting only)")
+                payload = None
         else:
             v = None
             name = _exc_name(e)
